@@ -66,9 +66,12 @@ ARCH = [
     {"kind": "table", "sections": [{"df": _t(4, 3), "body": {"col_rel_width": [1, 2, 1, 3]}, "headers": [{"text": ["@H0.0", "@H0.1", "@H0.2", "@H0.3"]}]}]},  # 12 explicit widths
     {"kind": "figure", "page": {"page_footnote": "all"}, "figure": {"files": [{"suffix": ".png", "stem": "f0", "hex": _PNG}, {"suffix": ".png", "stem": "f1", "hex": _PNG}]},
      "footnote": {"text": ["@F0"], "as_table": False, "text_color": "blue"}},                                                 # 13 figure 2 pages
+    {"kind": "multi", "header_layout": "nested", "sections": [{"df": _t(2, 2), "body": {"col_rel_width": [1, 2]}, "headers": "default"},
+                                                              {"df": _t(3, 2, "s"), "body": {"col_rel_width": [1, 1, 2]}, "headers": "default"}]},   # 14 multi, explicit widths, no footnote
+    {"kind": "table", "sections": [{"df": _t(3, 5, "w"), "body": {"col_rel_width": [2, 1, 1]}, "headers": "default"}]},          # 15 3 col explicit widths
 ]
 RAISES = {6}
-PLAIN_BODY = {0, 9, 12, 10}         # single tables whose body/header specs reference no columns
+PLAIN_BODY = {0, 9, 12, 10, 15}         # single tables whose body/header specs reference no columns
 SHARE_SETS = [["page"], ["body"], ["footnote"], ["title"], ["header"], ["page", "footnote", "source", "title"], ["body", "header"]]
 COMPONENT_ARG = {"page": "rtf_page", "title": "rtf_title", "footnote": "rtf_footnote", "source": "rtf_source"}
 
@@ -87,7 +90,7 @@ def effective_recipe(history, upto):
                 if what in COMPONENT_ARG:
                     rec[what] = copy.deepcopy(donor.get(what))
                 elif what == "body":
-                    rec["sections"][0]["body"] = copy.deepcopy(donor["sections"][0]["body"])
+                    rec["sections"][0]["body"] = copy.deepcopy(donor["sections"][-1 if donor["kind"] == "multi" else 0]["body"])
                 elif what == "header":
                     rec["sections"][0]["headers"] = copy.deepcopy(donor["sections"][0]["headers"])
         recs.append(rec)
@@ -104,10 +107,13 @@ def applicable(what, rec, donor):
                 continue
             out.append(w)
         elif w in ("body", "header"):
-            if rec["kind"] != "table" or donor["kind"] != "table":
+            if rec["kind"] != "table" or donor["kind"] not in ("table", "multi") or (donor["kind"] == "multi" and w == "header"):
                 continue
-            if any(k in donor["sections"][0]["body"] or k in rec["sections"][0]["body"] for k in ("group_by", "page_by", "subline_by")):
+            dbody = donor["sections"][-1 if donor["kind"] == "multi" else 0]["body"]
+            if any(k in dbody or k in rec["sections"][0]["body"] for k in ("group_by", "page_by", "subline_by")):
                 continue
+            if w == "body" and dbody.get("col_rel_width") and len(dbody["col_rel_width"]) != len(rec["sections"][0]["df"]["cols"]):
+                continue        # explicit widths must fit the sharing document's column count
             if w == "header" and not isinstance(donor["sections"][0]["headers"], list):
                 continue
             out.append(w)
@@ -130,7 +136,10 @@ def construct(rec, donor_live, what):
         for w in what:
             arg = COMPONENT_ARG.get(w) or {"body": "rtf_body", "header": "rtf_column_header"}[w]
             if arg in dkw:
-                kw[arg] = dkw[arg]
+                val = dkw[arg]
+                if w == "body" and isinstance(val, list):
+                    val = val[-1]            # a multi-section donor shares its last section's body object
+                kw[arg] = val
     return R.Built(rtf.RTFDocument(**kw), dfs, rec, files, kw)
 
 
@@ -256,7 +265,7 @@ def enumerate_cases(tier):
         if tier == "quick" and (a * 5 + b) % 3:
             continue
         yield {"history": [_construct(a), {"op": "encode", "doc": 0}, _construct(b)]}
-    for a, b in itertools.product(sorted(PLAIN_BODY) + [1, 7, 2, 4], sorted(PLAIN_BODY) + [1, 7, 2, 13]):
+    for a, b in itertools.product(sorted(PLAIN_BODY) + [1, 7, 2, 4, 14, 3], sorted(PLAIN_BODY) + [1, 7, 2, 13]):
         for what in SHARE_SETS:
             for enc_first in (False, True):
                 if tier == "quick" and (a + b + len(what) + enc_first) % 2:
